@@ -12,11 +12,13 @@ pub struct Minimiser<'a> {
     pub class: String,
     pub budget: usize,
     pub execs: usize,
+    /// wall-clock budget: large scenarios (tens of thousands of records) cost seconds per execution
+    pub deadline: std::time::Instant,
 }
 
 impl Minimiser<'_> {
     fn fails(&mut self, s: &Scenario) -> bool {
-        if self.execs >= self.budget {
+        if self.execs >= self.budget || std::time::Instant::now() > self.deadline {
             return false;
         }
         self.execs += 1;
@@ -36,7 +38,58 @@ impl Minimiser<'_> {
         }
     }
 
+    /// delta-debugging style: remove chunks of halving size before single elements
+    fn shrink_chunks(&mut self, s: &mut Scenario, len_of: &dyn Fn(&Scenario) -> usize, remove: &dyn Fn(&mut Scenario, usize, usize)) -> bool {
+        let mut any = false;
+        let mut chunk = len_of(s) / 2;
+        while chunk >= 2 {
+            let mut start = 0;
+            while start < len_of(s) {
+                let end = (start + chunk).min(len_of(s));
+                let mut c = s.clone();
+                remove(&mut c, start, end);
+                if self.try_apply(s, c) {
+                    any = true;
+                } else {
+                    start = end;
+                }
+                if self.execs >= self.budget || std::time::Instant::now() > self.deadline {
+                    return any;
+                }
+            }
+            chunk /= 2;
+        }
+        any
+    }
+
     pub fn run(&mut self, mut s: Scenario) -> Scenario {
+        // big scenarios first lose whole chunks of records, terms (with dependants) and links
+        if s.facts.size() > 200 {
+            for k in KINDS {
+                self.shrink_chunks(&mut s, &|x| x.facts.recs(k).len(), &|x, a, b| {
+                    x.facts.recs_mut(k).drain(a..b);
+                });
+            }
+            self.shrink_chunks(&mut s, &|x| x.facts.terms.len(), &|x, a, b| {
+                let keep_std = x.drop_terms.is_empty() && x.prop != "C15";
+                let root = x.sub.as_ref().map(|q| q.root);
+                let ids: Vec<u32> = x.facts.terms[a..b].iter().map(|t| t.id).filter(|i| !(keep_std && (*i == 1 || *i == 118)) && Some(*i) != root).collect();
+                for id in ids {
+                    x.facts.remove_term(id);
+                    if let Some(sub) = &mut x.sub {
+                        if sub.leaves.len() > 1 {
+                            sub.leaves.retain(|l| *l != id);
+                        }
+                    }
+                }
+            });
+            self.shrink_chunks(&mut s, &|x| x.facts.isa.len(), &|x, a, b| {
+                x.facts.isa.drain(a..b);
+            });
+            self.shrink_chunks(&mut s, &|x| x.ops.len(), &|x, a, b| {
+                x.ops.drain(a..b);
+            });
+        }
         let mut progress = true;
         let mut rounds = 0;
         while progress && rounds < 6 && self.execs < self.budget {
